@@ -7,8 +7,12 @@
   iterates such a container is modelled as a function of an ARBITRARY ENUMERATION (a `List`) of the
   container, and seed / layout independence becomes permutation invariance of the stage.
 
-  Modelled here (one Lean function per Python site; the code modelled is the tree with the fixes
-  D1701–D1705 applied, the pre-fix behaviour is kept as `…Old` for the negation witnesses):
+  Modelled here (one Lean function per Python site).  The code modelled is /repo with commit
+  9b15a948 "definition domains are saved and annotated in sorted order" (the repair of the defects
+  called D1701 / D1702 below, made for C11) and with this property's patches
+  fixes/D1703_enabled_types_sorted, D1704_unique_protoclusters_one_total_key and
+  D1705_filter_results_tie_by_position applied; the pre-fix behaviour is kept as `…Old` for the
+  negation witnesses:
 
     * `sorted(container, key=…)` followed by a loop                        → `foldSorted`
     * `Region.get_unique_protoclusters` (region/structures.py)             → `uniqueProtoclusters`
